@@ -473,7 +473,7 @@ def get_item(I, obj, idx):
         # a havocked list: only the part appended since the havoc is known - negative indices into it
         if isinstance(idx, int) and not isinstance(idx, bool) and idx < 0 and -idx <= len(obj.tail):
             return obj.tail[idx]
-        raise Unsupported("read of the unknown part of a havocked list")
+        raise Unsupported(f"read of the unknown part of a havocked list (index {idx!r}, known tail {obj.tail!r})")
     if isinstance(obj, SBytes) or (isinstance(obj, (bytes, bytearray)) and is_symbolic(idx)):
         b = B.to_sbytes(obj)
         if isinstance(idx, slice):
